@@ -36,8 +36,11 @@ fn c13_strategy(ctx: &Ctx) -> BoxedStrategy<SeqCase> {
   let kinds = prop::sample::select(vec![ConnKind::Publish, ConnKind::RefCount, ConnKind::Replay]);
   // source: 0 = hot, 1 = cold synchronous, 2 = per-subscription cold
   let take = prop::option::weighted(0.3, 1usize..=2);
-  (kinds, 0u8..=2, gen::script_wf(4, 1), gen::script_wf(3, 1), prop::collection::vec(cop(), 1..=max), any::<bool>(), take, 0u64..4)
-    .prop_map(|(kind, src, s1, s2, ops, via_map, take, hash_seed)| {
+  // observer 0 subscribes observer 2 from inside its n-th next callback: with a cold source
+  // that is in the middle of the first connection
+  let nested = prop::option::weighted(0.25, 0usize..3);
+  (kinds, 0u8..=2, gen::script_wf(4, 1), gen::script_wf(3, 1), prop::collection::vec(cop(), 1..=max), any::<bool>(), take, 0u64..4, nested)
+    .prop_map(|(kind, src, s1, s2, ops, via_map, take, hash_seed, nested)| {
       let hot = src == 0;
       let mut root = match src {
         0 => Node::Src(0, Src::Hot(0)),
@@ -151,6 +154,7 @@ fn c13_strategy(ctx: &Ctx) -> BoxedStrategy<SeqCase> {
           actions.truncate(i + 1);
         }
       }
+      let uses_2 = actions.iter().any(|a| matches!(a, Action::Subscribe(2) | Action::Unsub(2)));
       SeqCase {
         case: Case {
           root,
@@ -160,7 +164,18 @@ fn c13_strategy(ctx: &Ctx) -> BoxedStrategy<SeqCase> {
           // subscribers that end by themselves (take) - otherwise not for replay over cold
           // sources, whose subscriber count must stay above zero until the source finished
           conn_take: if kind == ConnKind::Replay && !hot && !replay_cold_take { None } else { take },
-          recorders: vec![vec![], vec![], vec![]],
+          recorders: vec![
+            match nested {
+              // (observer 2 then never appears in the generated calls: its outcome would
+              // depend on bookkeeping this generator does not track)
+              Some(at) if kind != ConnKind::Publish && !uses_2 && !hot && take.is_none() => {
+                vec![Reaction { at, what: React::Subscribe(2) }]
+              }
+              _ => vec![],
+            },
+            vec![],
+            vec![],
+          ],
           actions,
         },
         hash_seed,
